@@ -73,6 +73,22 @@ func (s *PFCPSession) MarkSessionQer(qers []qer) {
 		return
 	}
 
+	// a QER that is programmed as the session QER is never the application QER of a PDR:
+	// it stays behind the others in every PDR's list, whatever else is decided below
+	for _, q := range qers {
+		if q.qosLevel != SessionQos {
+			continue
+		}
+
+		for i := range s.pdrs {
+			idx := findItemIndex(s.pdrs[i].qerIDList, q.qerID)
+			if idx != len(s.pdrs[i].qerIDList) {
+				s.pdrs[i].qerIDList = append(s.pdrs[i].qerIDList[:idx], s.pdrs[i].qerIDList[idx+1:]...)
+				s.pdrs[i].qerIDList = append(s.pdrs[i].qerIDList, q.qerID)
+			}
+		}
+	}
+
 	sessQerIDList := make([]uint32, 0)
 	lastPdrIndex := len(s.pdrs) - 1
 	// create search list with first pdr's qerlist */
